@@ -59,12 +59,16 @@ Inductive ctor :=
 | CISignedLe (b : list Z)                  (* BigInt::from_signed_bytes_le *)
 | CISignedBe (b : list Z)                  (* BigInt::from_signed_bytes_be *)
 | CISerde (s : sign) (w : list Z)          (* Deserialize: (sign token, sequence of u32 tokens) *)
-| CIFromU (d : list Z).                    (* BigInt::from(biguint_from_vec d) *)
+| CIFromU (d : list Z)                     (* BigInt::from(biguint_from_vec d) *)
+| CURadixLe (b : list Z) (r : Z)           (* BigUint::from_radix_le(digits, radix).unwrap() *)
+| CURadixBe (b : list Z) (r : Z)
+| CIRadixLe (s : sign) (b : list Z) (r : Z)  (* BigInt::from_radix_le(sign, digits, radix).unwrap() *)
+| CIRadixBe (s : sign) (b : list Z) (r : Z).
 
 Definition of_opt {A} (o : option A) (site : Z) : outcome A :=
   match o with Some a => Ret a | None => Panic (Internal site) end.
 
-Definition construct (c : ctor) : outcome obj :=
+Definition construct (P : hist_params) (c : ctor) : outcome obj :=
   match c with
   | CUVec d => Ret (OU (biguint_from_vec d))
   | CUNew w => Ret (OU (unew w))
@@ -81,6 +85,10 @@ Definition construct (c : ctor) : outcome obj :=
   | CISignedBe b => do r <- from_signed_bytes_be b; Ret (OI r)
   | CISerde s w => do r <- of_opt (de_bigint (ser_sign s) None w) 1411; Ret (OI r)
   | CIFromU d => Ret (OI (ifrom_u (biguint_from_vec d)))
+  | CURadixLe b r => do o <- u_from_radix_le (hp_radix P) b r; do d <- of_opt o 1412; Ret (OU d)
+  | CURadixBe b r => do o <- u_from_radix_be (hp_radix P) b r; do d <- of_opt o 1412; Ret (OU d)
+  | CIRadixLe s b r => do o <- i_from_radix_le (hp_radix P) s b r; do x <- of_opt o 1413; Ret (OI x)
+  | CIRadixBe s b r => do o <- i_from_radix_be (hp_radix P) s b r; do x <- of_opt o 1413; Ret (OI x)
   end.
 
 (** * Operations on the object *)
@@ -203,7 +211,7 @@ Definition step (P : hist_params) (s : obj) (o : op) : outcome obj :=
 Definition fits (s : obj) : bool := zlen (odigits s) <? 2 ^ 58.
 Definition guard (s : obj) : outcome obj := if fits s then Ret s else Panic MemOverflow.
 
-Definition start (c : ctor) : outcome obj := do s <- construct c; guard s.
+Definition start (P : hist_params) (c : ctor) : outcome obj := do s <- construct P c; guard s.
 
 (** A panic stops the history (the Rust object is unwound / left unspecified). *)
 Fixpoint run (P : hist_params) (s : obj) (ops : list op) : outcome obj :=
@@ -213,7 +221,7 @@ Fixpoint run (P : hist_params) (s : obj) (ops : list op) : outcome obj :=
   end.
 
 Definition history (P : hist_params) (c : ctor) (ops : list op) : outcome obj :=
-  do s <- start c; run P s ops.
+  do s <- start P c; run P s ops.
 
 (** The same with every intermediate object observed (what the harness prints). *)
 Fixpoint trace (P : hist_params) (s : obj) (ops : list op) : list (outcome obj) :=
@@ -225,7 +233,7 @@ Fixpoint trace (P : hist_params) (s : obj) (ops : list op) : list (outcome obj) 
               end
   end.
 Definition history_trace (P : hist_params) (c : ctor) (ops : list op) : list (outcome obj) :=
-  match start c with
+  match start P c with
   | Ret s => Ret s :: trace P s ops
   | e => [e]
   end.
